@@ -201,6 +201,7 @@ pub fn device_path() -> BoxedStrategy<String> {
         2 => proptest::collection::vec(prop::sample::select(crate::checks::c04::ALPHABET.to_vec()), 0..12).prop_map(|v| v.into_iter().collect::<String>()),
         1 => "[ -~]{0,20}",
         2 => prop::sample::select(crate::dict::tokens()),
+        1 => proptest::collection::vec(prop::sample::select("\"\\".chars().flat_map(|c| lookalikes(c)).chain("/mnt\"".chars()).collect::<Vec<char>>()), 1..10).prop_map(|v| v.into_iter().collect::<String>()),
         1 => (prop::sample::select(vec!["/dev/", "\"", "\\", "é"]), 2000usize..10_000).prop_map(|(u, n)| u.repeat(n / u.len())),
     ]
     .boxed()
@@ -250,6 +251,35 @@ pub fn run(ctx: &Ctx) -> Report {
         run_prop(&mut st, ctx.seed, "C20", shard as u64, cases / shards as u32, &strat, |(t, th, ops)| judge(t, *th, ops), |(t, th, ops)| case_json(t, *th, ops));
         st
     });
+    // renderings of one compiled expression in different wall-clock seconds (expressions with time
+    // tests): same path -> same program
+    let clock = run_shards(16, |shard| {
+        let mut st = Stats::new();
+        let trees = sample_values(ctx.seed, "C20-clock", shard as u64, ctx.tier.pick(1usize, 6usize), &(gen::which(), gen::cmp(), 0u64..100, gen::tunit(), gen::supported_leaf()));
+        for (w, c, n, u, leaf) in trees {
+            let t = E::and(E::T(Tst::Time(w, c, n, u)), leaf);
+            let x = to_ast(&t);
+            let v = match catch(|| compile(&x, &RunOptions::default())) {
+                Ok(Ok(comp)) => {
+                    let a = comp.scheme("/dev/mdt0");
+                    let now = now_secs();
+                    while now_secs() == now {
+                        std::thread::sleep(std::time::Duration::from_millis(25));
+                    }
+                    let b = comp.scheme("/dev/mdt0");
+                    if a == b {
+                        Verdict::Pass { nt: true, class: "rendered again in the next second" }
+                    } else {
+                        Verdict::Fail(format!("{t:?}: rendering the same compiled expression for the same path one second later gives a different program\nfirst:\n{a}\nsecond:\n{b}"))
+                    }
+                }
+                _ => Verdict::Skip("does not compile"),
+            };
+            st.record(&v, stable_hash(&t), false, || json!({"kind": "clock", "tree": term::encode_expr(&t)}));
+        }
+        st
+    });
+    total.merge(clock);
     // samples: shorten long paths
     total.samples = total
         .samples
